@@ -188,6 +188,14 @@ func (c06) Gen(tier string, seed int64, emit0 func([]Ev)) {
 					all = append(all, p)
 				}
 				e := Ev{"op": "readpmt", "pid": pid, "packets": pktsEv(all)}
+				if (si+fi)%11 == 5 {
+					// the table far into the stream: tens of thousands of packets of another PID first
+					o := plainOther(r)
+					if int(o[1]&0x1f)<<8|int(o[2]) == pid {
+						o[2] ^= 1
+					}
+					e["lead"], e["lead_n"] = B(o[:]), []int{5000, 70000, 100001, 300000}[r.Intn(4)]
+				}
 				for k, v := range base {
 					e[k] = v
 				}
@@ -412,7 +420,15 @@ func (c06) Exec(h []Ev) []Ev {
 				}
 				// the way the stream is handed over (buffer, buffered readers, one byte at a time, random pieces, data
 				// together with EOF) is a function of the event
-				pmt, err := psi.ReadPMT(c07Reader(c07Readers[(buf.Len()/188*7+GI(e["pid"]))%len(c07Readers)], buf.Bytes()), GI(e["pid"]))
+				data := buf.Bytes()
+				if n := GI0(e["lead_n"]); n > 0 { // one packet of another PID, n times, in front (described, not transmitted)
+					data = append(bytes.Repeat(GB(e["lead"]), n), data...)
+				}
+				e["lead_n"] = GI0(e["lead_n"])
+				if _, ok := e["lead"]; !ok {
+					e["lead"] = []int{}
+				}
+				pmt, err := psi.ReadPMT(c07Reader(c07Readers[(buf.Len()/188*7+GI(e["pid"]))%len(c07Readers)], data), GI(e["pid"]))
 				c06Observe(e, pmt, err)
 				defer hold(pmt, err)
 			case "th":
